@@ -4,6 +4,7 @@ CONSTANTS NW = 2
  MaxS = 2
  MaxTag = 1
  MaxObj = 1
+ MaxQ = 1
  MaxL = 2
  Flags = {0, 1, 2}
  YieldOpts = {0}
